@@ -7,7 +7,11 @@ NIGHTLY = "+nightly"
 
 def harness_names(modfile):
     txt = open(os.path.join(C.VERIF, "harness", modfile + ".rs")).read()
-    return re.findall(r"pub\(crate\) fn (h_\w+)\s*\(\s*\)", txt)
+    names = re.findall(r"pub\(crate\) fn (h_\w+)\s*\(\s*\)", txt)
+    # harness names produced by macro invocations:  some_macro!(h_a, h_b, h_c, ...)
+    for m in re.finditer(r"^\w+!\(((?:h_\w+,\s*)+)", txt, re.M):
+        names += re.findall(r"h_\w+", m.group(1))
+    return names
 
 
 def inject(scratch_repo, modules, known_ids):
